@@ -5,7 +5,8 @@ use std::collections::{BTreeMap, BTreeSet, HashSet};
 
 use super::tape::mix;
 
-pub const MAX_SAMPLES: usize = 6;
+pub const MAX_SAMPLES: usize = 9;
+pub const MAX_SAMPLES_PER_STAGE: usize = 3;
 
 #[derive(Default)]
 pub struct Stats {
@@ -128,7 +129,7 @@ impl Stats {
         for (k, v) in other.classes {
             *self.classes.entry(k).or_insert(0) += v;
         }
-        for s in other.samples {
+        for s in other.samples.into_iter().take(MAX_SAMPLES_PER_STAGE) {
             if self.samples.len() < MAX_SAMPLES {
                 self.samples.push(s);
             }
